@@ -26,6 +26,7 @@ type Piece struct {
 	Const string
 	Hole  string // hole name ("" for constant piece)
 	Class string
+	T     *Term // direct term (tokens of re-tokenised output ropes)
 }
 
 type Tok struct {
@@ -34,6 +35,7 @@ type Tok struct {
 	Pieces []Piece // TkString / TkNumber: concatenation of constants and holes
 	Bool   bool    // TkBool constant
 	Hole   string  // TkBool hole name
+	BoolT  *Term   // TkBool given by a term
 	IsKey  bool
 }
 
